@@ -9,10 +9,10 @@ git -C /repo worktree add -q $wt HEAD
 demo=$(ls $src/seed_demo_*.rs | head -1); name=$(basename $demo .rs)
 cp $demo $wt/tests/
 cd $wt
-echo "== demo WITHOUT patch"; cargo test --offline -q --test $name 2>&1 | grep "test result" 
+echo "== demo WITHOUT patch"; cargo test --offline -q --features compiler --test $name 2>&1 | grep "test result" 
 if ! git apply --check $src/patch.diff 2>/dev/null; then echo "PATCH DOES NOT APPLY to current HEAD"; git -C /repo worktree remove --force $wt; exit 3; fi
 git apply $src/patch.diff
-echo "== demo WITH patch"; cargo test --offline -q --test $name 2>&1 | grep "test result"
+echo "== demo WITH patch"; cargo test --offline -q --features compiler --test $name 2>&1 | grep "test result"
 echo "== crate tests WITH patch"; cargo test --offline -q --workspace --no-fail-fast --exclude-from-test x 2>/dev/null | grep "test result" | awk '{p+=$4; f+=$6} END {print "passed",p,"failed",f}'
 cargo test --offline --workspace --no-fail-fast 2>&1 | grep "test result" | awk '{p+=$4; f+=$6} END {print "workspace: passed",p,"failed",f, "(includes the demo)"}'
 echo "== check $pid against the patched tree"
